@@ -269,7 +269,7 @@ func trunc(s string, n int) string {
 
 var c13Variants = []string{"changes-hash", "base-plasma", "total-plasma", "both-plasma", "public-key-other", "public-key-empty", "signature-bitflip",
 	"signature-noncanonical-s", "signature-empty", "amount+1", "data+1", "descendant-added", "hash-altered", "to-address", "nonce", "fused-plasma",
-	"descendant-amount", "descendant-data", "descendant-to", "descendant-unhashed", "amount-negated"}
+	"descendant-amount", "descendant-data", "descendant-to", "descendant-unhashed", "amount-negated", "signature-trailing"}
 
 // ed25519 group order L (little endian addition on S)
 var ed25519L, _ = new(big.Int).SetString("7237005577332262213973186563042994240857116359379907606001950938285454250989", 10)
@@ -318,6 +318,12 @@ func makeVariant(c *pbt.C, b *nom.AccountBlock, kind string, keys *sim.KeyRing) 
 		copy(v.Signature[32:], out)
 	case "signature-empty":
 		v.Signature = nil
+	case "signature-trailing":
+		// the 64 bytes of the valid signature followed by more bytes
+		if len(v.Signature) != 64 {
+			return nil
+		}
+		v.Signature = append(append([]byte{}, v.Signature...), c.Bytes("var.sigtail", 1, 32)...)
 	case "amount+1":
 		if v.Amount == nil {
 			return nil
@@ -494,40 +500,47 @@ func TestC13Variants(t *testing.T) {
 			}
 			h.W.Drop(b)
 		}
-		// stored call data of accepted contract calls equals its canonical repack
-		l, err := sim.Scan(h.A)
-		if err == nil {
-			for _, s := range l.Sends {
-				if s.BlockType != nom.BlockTypeUserSend || !types.IsEmbeddedAddress(s.ToAddress) || len(s.Data) < 4 {
-					continue
-				}
-				ab, ok := sim.Contracts[s.ToAddress]
-				if !ok {
-					continue
-				}
-				m, err := ab.MethodById(s.Data[:4])
-				if err != nil {
-					continue
-				}
-				vals, err := m.Inputs.UnpackValues(s.Data[4:])
-				if err != nil {
-					c.Failf("C13/stored-calldata-undecodable", "accepted call %v to %s.%s stores data that does not unpack: %v", s.Hash, sim.ContractNames[s.ToAddress], m.Name, err)
-				}
-				re, err := m.Inputs.Pack(derefAll(vals)...)
-				if err != nil {
-					continue
-				}
-				if !bytes.Equal(append(append([]byte{}, s.Data[:4]...), re...), s.Data) {
-					c.Failf("C13/non-canonical-calldata", "accepted call %v to %s.%s stores non-canonical call data %x (canonical %x)", s.Hash,
-						sim.ContractNames[s.ToAddress], m.Name, s.Data, append(append([]byte{}, s.Data[:4]...), re...))
-				}
-				c.R.Count("calldata_checked", 1)
-			}
-		}
+		c13CanonicalCalldata(c, h.A)
 		if acceptedVariants > 0 {
 			c.NonTrivial()
 		}
 	})
+}
+
+// c13CanonicalCalldata: the stored call data of every accepted call to an embedded contract equals the canonical ABI
+// packing of the values it decodes to (one stored encoding per meaning); returns the number of calls checked.
+func c13CanonicalCalldata(c *pbt.C, n *sim.Node) (checked int) {
+	l, err := sim.Scan(n)
+	if err == nil {
+		for _, s := range l.Sends {
+			if s.BlockType != nom.BlockTypeUserSend || !types.IsEmbeddedAddress(s.ToAddress) || len(s.Data) < 4 {
+				continue
+			}
+			ab, ok := sim.Contracts[s.ToAddress]
+			if !ok {
+				continue
+			}
+			m, err := ab.MethodById(s.Data[:4])
+			if err != nil {
+				continue
+			}
+			vals, err := m.Inputs.UnpackValues(s.Data[4:])
+			if err != nil {
+				c.Failf("C13/stored-calldata-undecodable", "accepted call %v to %s.%s stores data that does not unpack: %v", s.Hash, sim.ContractNames[s.ToAddress], m.Name, err)
+			}
+			re, err := m.Inputs.Pack(derefAll(vals)...)
+			if err != nil {
+				continue
+			}
+			if !bytes.Equal(append(append([]byte{}, s.Data[:4]...), re...), s.Data) {
+				c.Failf("C13/non-canonical-calldata", "accepted call %v to %s.%s stores non-canonical call data %x (canonical %x)", s.Hash,
+					sim.ContractNames[s.ToAddress], m.Name, s.Data, append(append([]byte{}, s.Data[:4]...), re...))
+			}
+			c.R.Count("calldata_checked", 1)
+			checked++
+		}
+	}
+	return
 }
 
 func derefAll(vals []interface{}) []interface{} {
@@ -625,6 +638,48 @@ func FuzzC13Json(f *testing.F) {
 		blk2 := new(nom.AccountBlock)
 		if err := json.Unmarshal(re, blk2); err != nil || normBlock(blk2) != normBlock(blk) || blk.ComputeHash() != blk2.ComputeHash() {
 			t.Fatalf("JSON decode/encode/decode is not stable: %v\n%s\n%s", err, normBlock(blk), normBlock(blk2))
+		}
+	})
+}
+
+// TestC13Calldata: calls with valid arguments (model-guided intents, ecosystem / bridge scripts) are re-encoded
+// non-canonically before they are sent - trailing bytes, dirty padding, shifted offsets, duplicated words; whatever
+// the node accepts must be stored in the canonical encoding (the hash is computed over what is stored).
+func TestC13Calldata(t *testing.T) {
+	pbt.Check(t, "C13", func(c *pbt.C) {
+		spec := genSpec(c)
+		spec.ActiveSporks = 2
+		opts := genWorldOpts(c)
+		bridgeWorld := c.Weighted("bridgeWorld", 2, 1) == 1
+		if bridgeWorld {
+			opts.Bridge = true
+			for len(spec.Users) < 5 {
+				spec.Users = append(spec.Users, sim.UserSpec{Znn: 9000, Qsr: 90000})
+			}
+		}
+		h := sim.NewHist(c, spec, opts)
+		h.Intents = sim.DefaultIntents()
+		h.Recode = 2
+		if bridgeWorld {
+			_ = sim.BridgeScript(h, c.Int("wraps", 0, 3), c.Int("unwraps", 0, 2))
+			_ = sim.LiquidityScript(h)
+			h.Intents = append(h.Intents, sim.BridgeIntents()...)
+		}
+		if c.Bool("ecoWorld") {
+			_, _ = sim.EcosystemScript(h)
+		}
+		for r, rounds := 0, c.Int("rounds", 2, pbt.Scale(8, 20)); r < rounds && !h.Dead; r++ {
+			for i, k := 0, c.Int("calls", 1, 8); i < k; i++ {
+				if c.Weighted("kind", 4, 1) == 0 {
+					h.ActIntent()
+				} else {
+					h.ActCallABI()
+				}
+			}
+			h.Produce(c.Weighted("skip", 5, 1))
+		}
+		if n := c13CanonicalCalldata(c, h.A); n >= 5 {
+			c.NonTrivial()
 		}
 	})
 }
